@@ -13,7 +13,7 @@ from __future__ import annotations
 
 import ast
 
-from ..astutil import expand_locals, call_name
+from ..astutil import expand_locals, call_name, inline_single_defs as _inline_single_defs, read_through as _read_through
 from ..cfg import walk_shallow
 from ..core import norm
 from ..index import FuncInfo
@@ -45,43 +45,6 @@ def _deps(cls, name, depth=0, seen=None):
         if isinstance(n, (ast.For, ast.comprehension)) and isinstance(n.iter, ast.Name) and n.iter.id == "self":
             out |= {"operations", "measurements"}
     return out
-
-
-def _inline_single_defs(func_node):
-    """{name: expression} for locals of the function that are bound exactly once by a plain assignment (flags such as
-    `fresh = bool(copy_operations or update)`), used to read a branch condition through its local names"""
-    seen = {}
-    for st in walk_shallow(func_node):
-        if isinstance(st, ast.Assign) and len(st.targets) == 1 and isinstance(st.targets[0], ast.Name):
-            seen.setdefault(st.targets[0].id, []).append(st.value)
-        elif isinstance(st, (ast.AugAssign, ast.AnnAssign)) and isinstance(st.target, ast.Name):
-            seen.setdefault(st.target.id, []).append(None)
-        elif isinstance(st, (ast.For, ast.With)):
-            for x in ast.walk(st.target if isinstance(st, ast.For) else ast.Module(body=[], type_ignores=[])):
-                if isinstance(x, ast.Name):
-                    seen.setdefault(x.id, []).append(None)
-    return {k: v[0] for k, v in seen.items() if len(v) == 1 and v[0] is not None}
-
-
-def _read_through(test, defs, depth=0):
-    """the condition with single-definition locals replaced by their definitions and bool(x) unwrapped"""
-    import copy as _copy
-
-    if depth > 3:
-        return test
-
-    class R(ast.NodeTransformer):
-        def visit_Name(self, n):
-            if isinstance(n.ctx, ast.Load) and n.id in defs and n.id != "update":
-                return _read_through(_copy.deepcopy(defs[n.id]), defs, depth + 1)
-            return n
-
-        def visit_Call(self, n):
-            self.generic_visit(n)
-            if isinstance(n.func, ast.Name) and n.func.id == "bool" and len(n.args) == 1 and not n.keywords:
-                return n.args[0]
-            return n
-    return R().visit(_copy.deepcopy(test))
 
 
 def _excluded_keys(conds, defs=None):
